@@ -628,7 +628,7 @@ def rule_l4(chk: Check, ix: Index):
     chk.count("L4-block-structure")
     POPS = ("state.indents = state.indents[:-1]", "state.indents.pop()", "del state.indents[-1]")
     ok = False
-    for n in body:
+    for n in own_nodes(ns.node):     # at whatever nesting depth the block-structure part sits
         if isinstance(n, ast.If) and norm_stmt(n.test) in ("column > state.indents[-1]", "state.indents[-1] < column"):
             txt = [norm_stmt(x) for x in n.body]
             ok = txt.count("state.indents.append(column)") == 1 and not n.orelse and \
@@ -637,7 +637,7 @@ def rule_l4(chk: Check, ix: Index):
     chk.require(ok, "L4-block-structure", "next_statement:INDENT", ns.where,
                 "an INDENT token must be emitted exactly when a level is pushed (one push of the measured column, one INDENT)")
     chk.count("L4-block-structure")
-    loops = [n for n in body if isinstance(n, ast.While) and norm_stmt(n.test) in ("column < state.indents[-1]", "state.indents[-1] > column")]
+    loops = [n for n in own_nodes(ns.node) if isinstance(n, ast.While) and norm_stmt(n.test) in ("column < state.indents[-1]", "state.indents[-1] > column")]
     ok = len(loops) == 1 and sum(1 for x in loops[0].body if norm_stmt(x) in POPS) == 1 and \
         sum(1 for x in ast.walk(loops[0]) if isinstance(x, ast.Yield) and "Token.DEDENT" in norm_stmt(x)) == 1
     chk.require(ok, "L4-block-structure", "next_statement:DEDENT", ns.where,
